@@ -14,6 +14,8 @@ for name in sorted(os.listdir(os.path.join(HERE, "seeded"))):
     status = "effective" if ok else ("neutral on the repaired tree" if v.get("demo_with_change") == 0 else "unverified")
     if m.get("disputed"):
         status = "not a violation of the statement (see meta.json: disputed)"
+    if m.get("superseded"):
+        status = "superseded by a fix commit (see meta.json: superseded)"
     first = ""
     own = name.split("-")[0]
     if own in (v.get("checks") or {}):
